@@ -7,12 +7,11 @@ package crypto
 
 //@ -- the same predicate as CanonicalScalar of zz_contracts_c30_verif.go, stated on the key value
 //@ spec CanonicalScalarKey(k Key) bool = CanonicalScalar(seq(k))
-//@ uninterp ValidPoint(k Key) bool
+//@ -- (C32) defined: the key bytes pass the three tests of decodePoint (ValidPointBytes: zz_contracts_c32_verif.go); was uninterpreted
+//@ spec ValidPoint(k Key) bool = ValidPointBytes(seq(k))
 
 //@ -- CheckKey decodes the point and reports the error: total.
-//@ assume func (k Key) CheckKey
-//@   pure
-//@   ensures result <==> ValidPoint(k)
+//@ -- (Key).CheckKey: VERIFIED contract in zz_contracts_c32_verif.go (pure; result <==> ValidPoint(k))
 
 //@ -- Public panics on a non-canonical scalar (SetCanonicalBytes error).
 //@ -- (Key).Public: assumed contract in zz_contracts_c30_verif.go (panics when the scalar is not canonical)
@@ -49,15 +48,7 @@ package crypto
 //@   modifies nothing
 
 //@ -- KeyMultPubPriv panics on an undecodable point or a non-canonical scalar.
-//@ assume func KeyMultPubPriv(pub, priv)
-//@   requires pub != nil && priv != nil
-//@   panics when !ValidPoint(*pub) || !CanonicalScalarKey(*priv)
-//@   modifies nothing
+//@ -- KeyMultPubPriv: VERIFIED contract in zz_contracts_c32_verif.go (same requires / panics when / modifies nothing, plus the result)
 
 //@ -- ViewGhostOutputKey(P, a, R, i) = P - Hs(a*R, i)*G: panics via KeyMultPubPriv(R, a) and on an undecodable P.
-//@ assume func ViewGhostOutputKey(P, a, R, outputIndex)
-//@   requires P != nil && a != nil && R != nil
-//@   panics when !ValidPoint(*R) || !CanonicalScalarKey(*a) || !ValidPoint(*P)
-//@   modifies nothing
-//@   fresh
-//@   ensures result != nil
+//@ -- ViewGhostOutputKey: VERIFIED contract in zz_contracts_c32_verif.go (same requires / panics when / modifies nothing; result != nil && fresh(result), plus its value)
